@@ -1315,18 +1315,133 @@ Theorem leader_commits_own_suffix_with_snapshots_nonvacuous :
 Proof. exact leader_suffix_snap_nonvacuous. Qed.
 Print Assumptions leader_commits_own_suffix_with_snapshots_nonvacuous.
 
+(* ---------------------------------------------------------------- round 10: towards the four clauses over the combined alphabet *)
+From BLB Require Raft.LogMatchNodeSQ Raft.LogMatchNodeSMQ Raft.InvWeaken Raft.MemberStepV.
+
+(* [PARTIAL] combined alphabet, node level: the step summary of the log-matching pass (with the refined commit evidence in which the
+   leader counts itself only as a member of its configuration) holds for AddNode and RemoveNode, and for every event of the
+   snapshot rounds other than SnapshotDone and the delivery of InstallSnap, on a node WITH a snapshot, seen through its virtual
+   node vn C s (logical log C followed by the physical log); any crash point, followed by newCore.  Premises: the virtual node
+   is a base state, the store has the shape of a snapshot over the ghost prefix C, evokM (the added id is not the node and is
+   not in the peer table), and the completeness premise premE for a delivered AppEnts.  PARTIAL for C02: a building block of
+   the induction over the combined alphabet, see NOT YET PROVED *)
+Theorem step_summary_membership_change_with_snapshots_partial :
+  forall C s ev k crashed st s',
+    LogMatchNodeQ.base (LogMatchNodeSQ.vn C s) -> LogMatchNodeSQ.shape C (n_p s) (n_commit s) ->
+    LogMatchNodeMQ.evokM s ev -> LogMatchNodeSQ.premE C s ev ->
+    run_event_crash (settle s) ev k = Ret (crashed, st, s') ->
+    LogMatchNodeQ.inv (with_budget (settle (LogMatchNodeSQ.vn C s)) k) (LogMatchNodeQ.inp_of ev) (LogMatchNodeQ.boot_of ev)
+      (LogMatchNodeQ.rt_of ev) (LogMatchNodeQ.vq_of ev) (LogMatchNodeQ.lq_of (LogMatchNodeSQ.vn C s)) (LogMatchNodeQ.dc_of ev)
+      (LogMatchNodeQ.rsp_of ev) (LogMatchNodeSQ.vn C s') /\
+    LogMatchNodeSQ.shape C (n_p s') (n_commit s').
+Proof. exact LogMatchNodeSMQ.run_event_crash_lm_SM. Qed.
+Print Assumptions step_summary_membership_change_with_snapshots_partial.
+
+(* [PARTIAL] combined alphabet, system level: the state invariant MS of the membership-change rounds is preserved by an ABSTRACT step of
+   one node, in which the node-level facts are hypotheses instead of consequences of run_event_crash on a snapshot-free node:
+   the abstract node step, the refined node summary, the vote invariant EM of the post-state, the vote part of the node summary,
+   the configuration-tracks-log fact and the peer-table facts of the post-state, and the shape of a continuing leader's log
+   (unchanged, non-configuration entries appended, or one settled single-server configuration entry appended).  This is the
+   form in which the step applies to the virtual nodes of a system with snapshots.  PARTIAL for C02: supplying these facts
+   for SnapshotDone, InstallSnap deliveries and the generic events on nodes with snapshots at system level is not finished *)
+Theorem membership_invariant_abstract_step_partial :
+  forall bm be σ EC G A CL GR GL i s ev k s',
+    MS bm be (σ, EC) G A CL GR GL ->
+    get_node i (sy_nodes σ) = Some s ->
+    (forall m, ev = EDeliver m -> In m (sy_soup σ) /\ m_to m <> 0) ->
+    evres bm be ev ->
+    nstep s ev k s' ->
+    LogMatchNodeQ.inv (with_budget (settle s) k) (LogMatchNodeQ.inp_of ev) (LogMatchNodeQ.boot_of ev) (LogMatchNodeQ.rt_of ev)
+      (LogMatchNodeQ.vq_of ev) (LogMatchNodeQ.lq_of s) (LogMatchNodeQ.dc_of ev) (LogMatchNodeQ.rsp_of ev) s' ->
+    EM (step_sys σ s', EC ++ ec_of s s') ->
+    cpart s s' (ev_msg ev) ->
+    ctw s' -> peers_ok s' ->
+    (n_role s = Leader -> p_term (n_p s') = p_term (n_p s) -> Raft.MemberLeaderLog.peers_sub s') ->
+    (n_role s = Leader -> p_term (n_p s') = p_term (n_p s) -> Raft.MemberStepV.ShT s (p_log (n_p s'))) ->
+    MS bm be (step_sys σ s', EC ++ ec_of s s') (G ++ rec_of s s') (A ++ acks_of s' ++ rec_acks (rec_of s s'))
+       (CL ++ cl_of s s') (GR ++ gr_of G s s') (GL ++ gl_of G s s').
+Proof. exact Raft.MemberStepV.MS_step_abs. Qed.
+Print Assumptions membership_invariant_abstract_step_partial.
+
+From BLB Require Raft.SnapVirtualQ Raft.SnapEventsQ Raft.MemberSnapNode Raft.MemberSnapLeader.
+
+(* [PARTIAL] combined alphabet, node level: the two snapshot events as abstract steps of the virtual node, with the refined node summary.
+   A SnapshotDone that is ignored or names an applied position of the logical log (legitS) is a step that leaves the logical log
+   unchanged under a new ghost prefix; a delivered InstallSnap (li, lt, cf) under the completeness premise premV is the delivery
+   of the stand-in AppEnts carrying the sender's committed prefix Cs; any crash point.  With the step summary for the other
+   events these are the abstract node step and refined summary hypotheses of membership_invariant_abstract_step_partial for
+   every event of the combined alphabet.  PARTIAL for C02: building block *)
+Theorem snapshot_events_as_abstract_steps_partial :
+  (forall C s m k crashed st s',
+     LogMatchNodeQ.base (LogMatchNodeSQ.vn C s) -> LogMatchNodeSQ.shape C (n_p s) (n_commit s) ->
+     (match p_snap (n_p s) with Some cur => sn_index m <=? sn_index cur | None => false end = false -> Raft.SnapEventsQ.legitS C s m) ->
+     run_event_crash (settle s) (ESnapDone m) k = Ret (crashed, st, s') ->
+     exists C', C' ++ p_log (n_p s') = C ++ p_log (n_p s) /\ LogMatchNodeSQ.shape C' (n_p s') (n_commit s') /\
+                nstep (LogMatchNodeSQ.vn C s) ETick k (LogMatchNodeSQ.vn C' s') /\
+                Raft.MemberSnapNode.NIQ (LogMatchNodeSQ.vn C s) ETick k (LogMatchNodeSQ.vn C' s')) /\
+  (forall C s m li lt cf Cs k crashed st s',
+     LogMatchNodeQ.base (LogMatchNodeSQ.vn C s) -> LogMatchNodeSQ.shape C (n_p s) (n_commit s) -> m_body m = InstallSnap li lt cf ->
+     (p_term (n_p s) <= m_term m ->
+      LogMatchNodeSQ.premV C (with_budget (settle (LogMatchNodeSQ.vn C s)) k) (n_p s) (m_term m) Cs li lt) ->
+     run_event_crash (settle s) (EDeliver m) k = Ret (crashed, st, s') ->
+     exists C', nstep (LogMatchNodeSQ.vn C s) (EDeliver (LogMatchNodeSQ.vmsg m Cs li)) k (LogMatchNodeSQ.vn C' s') /\
+                Raft.MemberSnapNode.NIQ (LogMatchNodeSQ.vn C s) (EDeliver (LogMatchNodeSQ.vmsg m Cs li)) k (LogMatchNodeSQ.vn C' s') /\
+                LogMatchNodeSQ.shape C' (n_p s') (n_commit s') /\ incl C' (C ++ p_log (n_p s) ++ Cs)).
+Proof. exact (conj Raft.MemberSnapNode.vstep_snapdone Raft.MemberSnapNode.vstep_install). Qed.
+Print Assumptions snapshot_events_as_abstract_steps_partial.
+
+(* [PARTIAL] combined alphabet, node level: when the snapshot metadata carries the configuration of the logical prefix it covers
+   (shapeC: sn_conf is the last configuration among the first sn_index entries of the logical log), invariant (a) of round 9 on
+   the real node (the configuration in use is the one the durable state determines) IS invariant (a) of round 7 on the virtual
+   node (the configuration in use is the last configuration entry of the logical log); and a SnapshotDone whose metadata names
+   the configuration of the logical prefix it covers satisfies the side condition snap_conf_ok of round 9, which therefore
+   says no more than that the state machine reports the membership as of the applied index it snapshots.  PARTIAL for C02:
+   building block; the preservation of shapeC along runs is not finished *)
+Theorem configuration_of_logical_log_partial :
+  (forall C s cm,
+     LogMatchNodeSQ.shape C (n_p s) cm -> Raft.MemberSnapNode.shapeC C (n_p s) -> n_conf s = init_latest_conf (n_p s) ->
+     ctw (LogMatchNodeSQ.vn C s)) /\
+  (forall C s m cm,
+     LogMatchNodeSQ.shape C (n_p s) cm -> Raft.MemberSnapNode.shapeC C (n_p s) -> n_conf s = init_latest_conf (n_p s) ->
+     N.of_nat (length C) <= sn_index m -> sn_index m <= N.of_nat (length (C ++ p_log (n_p s))) ->
+     sn_conf m = lconf (firstn (N.to_nat (sn_index m)) (C ++ p_log (n_p s))) ->
+     snap_conf_ok s m).
+Proof. exact (conj Raft.MemberSnapNode.ctw_vn Raft.MemberSnapNode.snap_conf_ok_of_prefix). Qed.
+Print Assumptions configuration_of_logical_log_partial.
+
+(* [PARTIAL] combined alphabet, node level: a leader WITH a snapshot that ends an event (any event but SnapshotDone, proposals without
+   configuration entries, any crash point, Restart included) in the same term holds its old physical log unchanged, extended by
+   non-configuration entries, or extended by exactly one settled single-server configuration entry; except that a newCore which
+   finds the log in disagreement with the snapshot may have discarded it.  PARTIAL for C02: building block *)
+Theorem leader_log_shape_with_snapshots_partial :
+  forall s ev k crashed st s',
+    run_event_crash (settle s) ev k = Ret (crashed, st, s') ->
+    n_role s = Leader -> p_term (n_p s') = p_term (n_p s) -> Raft.MemberSnapLeader.evL ev ->
+    exists L1, Raft.MemberLeaderLog.Sh s L1 /\ (p_log (n_p s') = L1 \/ p_log (n_p s') = mem_truncate 0 L1).
+Proof. exact Raft.MemberSnapLeader.leader_log_shape_snap. Qed.
+Print Assumptions leader_log_shape_with_snapshots_partial.
+
 (* NOT YET PROVED (statements kept visible; listed in props/C02.json not_yet_proved):
    the four clauses over the COMBINED alphabet (membership changes AND snapshots in one run).  They hold for fixed membership
    with snapshots (round 5, alphabet sstepS) and for arbitrary single-server membership changes without snapshots (round 8,
-   alphabet mstepS).  Over the combined alphabet round 9 proves: invariant (a) over logical logs
-   (combined_alphabet_configuration_tracks_logical_log_partial and its run-level form, under the side conditions evK), and the
-   theorems whose alphabet astep already contains the snapshot events: election safety GIVEN the premise adjP
-   (election_safety_all_membership_changes_partial), counted_votes_come_from_members, leader_acks_come_from_members.
-   OPEN: the premise adjP itself (two configurations of adjacent elections differ by at most one member), leader completeness,
-   log matching and state machine safety over the combined alphabet.  What is missing is the re-run of the node passes of
-   rounds 6 to 8 (ginvM, ackinvM, voteinvM, commit evidence ms_cm) on the virtual nodes of round 5 (covered prefix plus physical
-   log), with the snapshot configuration standing for the configuration entries of the covered prefix, and the discharge of
-   snap_conf_ok for SnapshotDone from the fact that the state machine snapshots only applied entries.
+   alphabet mstepS).  Over the combined alphabet: invariant (a) over logical logs (round 9), election safety GIVEN adjP,
+   counted_votes_come_from_members, leader_acks_come_from_members; and (round 10) the ingredients of the induction on the
+   virtual nodes: the abstract step of the invariant MS (membership_invariant_abstract_step_partial), the node pass for every
+   event on nodes with snapshots including AddNode and RemoveNode with the refined commit evidence
+   (step_summary_membership_change_with_snapshots_partial, snapshot_events_as_abstract_steps_partial), the link between the
+   configuration of the durable state and of the logical log (configuration_of_logical_log_partial) and the shape of a
+   continuing leader's log (leader_log_shape_with_snapshots_partial).
+   OPEN: the system-level assembly, hence adjP, leader completeness, log matching and state machine safety over the combined
+   alphabet.  Missing, exactly: (1) the invariant MSI = exists ghost prefixes Cf, virtual soup S and the ghosts of MS, such that MS
+   holds of the virtual system, EM of the real one, every store has the shape of its ghost prefix with shapeC, the real soup
+   maps into S, and every InstallSnap in the real soup carries the configuration of the covered prefix of a record of its term;
+   (2) injection of the stand-in AppEnts into the virtual soup for MS (round 5 has it for the fixed-membership invariants);
+   (3) the completeness premises premS, premV re-derived from MS (ms_cn, committedM_kept in place of c_node, committed_kept);
+   (4) preservation of shapeC: generic events by the no-truncation lemma of the abstract step, SnapshotDone by the side condition
+   that the metadata names the configuration of the covered prefix, InstallSnap by log matching of the post-state plus the
+   provenance of the carried configuration, which needs one more node pass (an emitted InstallSnap carries the emitter's
+   snapshot metadata); (5) EM of the virtual post-state from EM of the real one; (6) initial states, runs, the four theorems
+   and their instance on the 20-step combined run.
    Side conditions of mstepS that are not hypotheses of raft.go: proposals carry no configuration entries (raft.go proposes them
    only through AddNode / RemoveNode), nobody asks a node to add itself, one bootstrap membership without duplicates.
    On the real code all four clauses are evaluated after every event by the monitors of the Go simulation, whose random
